@@ -342,6 +342,143 @@ def fill_marker_on_copies(ctx: Context, rule: str) -> None:
         ctx.check(rule, sites > 0 or True, f"call sites of {wfi.short} examined", wfi, wnode, construct=f"{wfi.short}: {sites} call site(s)")
 
 
+SHOC_DEPTH_NAMES = {
+    # the SHOC file formats name their vertical coordinates; the first is the default one
+    'emsarray.conventions.shoc.ShocStandard': ['z_centre', 'z_grid', 'z_centre_sed', 'z_grid_sed'],
+    'emsarray.conventions.shoc.ShocSimple': ['zc', 'zcsed'],
+}
+
+
+def shoc_depth_names(ctx: Context, rule: str) -> None:
+    """The SHOC conventions find their depth coordinates by name.  For each of the two classes the names looked up are read off the source -
+    the expression the lookup iterates, folded over the class's own constants, wherever in its bases the method now lives - and must be the
+    format's names: water column first (layer centres, then layer faces), then the sediment counterparts."""
+    import ast as _ast
+    from .common import Undecided, fold_function, names_deciding
+    p = ctx.p
+    for qual, expected in sorted(SHOC_DEPTH_NAMES.items()):
+        ci = p.classes.get(qual)
+        if ci is None:
+            ctx.check(rule, False, f"{qual} exists", None, None)
+            continue
+        fi = p.resolve_method(ci, 'depth_coordinates')
+        consts = {}
+        for c in reversed(p.mro(ci)):
+            for k, v in c.attrs.items():
+                try:
+                    consts[f"self.{k}"] = _ast.literal_eval(v)
+                except (ValueError, SyntaxError, TypeError):
+                    pass
+        got, why = None, ''
+        if fi is not None and not fi.is_abstract:
+            lookups = [n for n in _ast.walk(fi.node) if isinstance(n, (_ast.GeneratorExp, _ast.ListComp)) and len(n.generators) == 1
+                       and norm_text(n.elt) == f"self.dataset[{norm_text(n.generators[0].target)}]"]
+            if len(lookups) == 1:
+                names_expr = lookups[0].generators[0].iter
+                try:
+                    kind, vals = fold_function(fi, consts, only_names=names_deciding(fi, [names_expr]), want=[names_expr])
+                    if kind == 'values' and isinstance(vals[0], (list, tuple)):
+                        got = list(vals[0])
+                    else:
+                        why = f"folding ended with {kind}"
+                except Undecided as u:
+                    why = f"not foldable: {u}"
+            else:
+                why = f"{len(lookups)} name lookups of the form (self.dataset[name] for name in <names>)"
+        ctx.check(rule, got == expected, f"{ci.short}.depth_coordinates looks up exactly the format's vertical coordinates {expected}", fi, fi.node if fi is not None else None,
+                  construct=f"{ci.short}: names looked up = {got if got is not None else '? (' + why + ')'}")
+        dfi = p.resolve_method(ci, 'depth_coordinate')
+        dgot, dwhy = None, ''
+        if dfi is not None and not dfi.is_abstract:
+            subs = [n for n in _ast.walk(dfi.node) if isinstance(n, _ast.Subscript) and norm_text(n.value) == 'self.dataset' and isinstance(n.ctx, _ast.Load)]
+            if len(subs) == 1:
+                try:
+                    kind, vals = fold_function(dfi, consts, only_names=names_deciding(dfi, [subs[0].slice]), want=[subs[0].slice])
+                    dgot = vals[0] if kind == 'values' else None
+                except Undecided as u:
+                    dwhy = f"not foldable: {u}"
+            else:
+                dwhy = f"{len(subs)} lookups in self.dataset"
+        ctx.check(rule, dgot == expected[0], f"{ci.short}.depth_coordinate is the first of them, {expected[0]!r}", dfi, dfi.node if dfi is not None else None,
+                  construct=f"{ci.short}: default depth coordinate = {dgot!r} {dwhy}")
+
+
+DEPTH_MARKERS = {('positive', frozenset({'up', 'down'})), ('axis', frozenset({'Z'})), ('cartesian_axis', frozenset({'Z'})),
+                 ('coordinate_type', frozenset({'Z'})), ('standard_name', frozenset({'depth'}))}
+
+
+def depth_markers(ctx: Context, rule: str) -> None:
+    """The generic depth coordinate discovery takes a variable that carries ANY ONE of the markers CF and its predecessors use
+    (`positive: up|down`, `axis: Z`, `cartesian_axis: Z`, `coordinate_type: Z`, `standard_name: depth`): where a variable joins the result,
+    exactly that disjunction over the variable's own attributes is known - however it is written (an `or` chain, a table, a `match`)."""
+    from .common import facts
+    fi = ctx.func(f"{BASE}.depth_coordinates")
+    appends = [c for c in calls_in(fi, nested=True) if isinstance(c.func, ast.Attribute) and c.func.attr in ('append', 'add') and len(c.args) == 1]
+    ok, why = False, 'no variable is collected'
+    from .common import expand_locals
+    for c in appends:
+        var = norm_text(expand_locals(ctx.flow(fi), c.args[0]))        # (locals such as `attrs = data_array.attrs` are spelled out on both sides)
+        cls: list = []
+        fs = facts(ctx, fi, c, expand=True, clauses_out=cls)
+        found = None
+        for cl in cls:
+            markers = set()
+            understood = True
+            for text, pol in cl:
+                m = _marker_of(text, pol, var)
+                if m is None:
+                    understood = False
+                    break
+                markers.add(m)
+            if understood and markers:
+                found = markers
+        # a single marker written as one definite fact (degenerate, but readable the same way)
+        if found is None:
+            singles = {m for m in (_marker_of(t, pol, var) for t, pol in fs) if m is not None}
+            found = singles or None
+        if found is None:
+            why = f"no disjunction over {var}.attrs is known where it is collected (clauses: {[[t for t, _ in cl] for cl in cls][:2]})"[:300]
+        else:
+            ok = found == DEPTH_MARKERS
+            missing = sorted(k for k, _ in DEPTH_MARKERS - found)
+            extra = sorted(k for k, _ in found - DEPTH_MARKERS)
+            why = f"markers accepted: {sorted(k for k, _ in found)}; missing {missing or 'none'}; other {extra or 'none'}"
+    ctx.check(rule, ok, "a variable is a depth coordinate when it carries any one of: positive up / down, axis Z, cartesian_axis Z, coordinate_type Z, standard_name depth "
+              "(each alone is enough; files written by different tools carry different ones)", fi, appends[0] if appends else fi.node, construct=why)
+
+
+def _marker_of(text: str, pol: bool, var: str):
+    """(attribute, accepted values) for a literal `<var>.attrs.get(K[, d])[.lower()] == V` / `in {V, ...}` known true; None for anything else."""
+    if not pol:
+        return None
+    try:
+        e = ast.parse(text, mode='eval').body
+    except SyntaxError:
+        return None
+    if not (isinstance(e, ast.Compare) and len(e.ops) == 1 and isinstance(e.ops[0], (ast.Eq, ast.In))):
+        return None
+    left, right = e.left, e.comparators[0]
+    if isinstance(left, ast.Call) and isinstance(left.func, ast.Attribute) and left.func.attr == 'lower' and not left.args:
+        left = left.func.value
+    if isinstance(left, ast.Call) and dotted(left.func) == 'str' and len(left.args) == 1:
+        left = left.args[0]
+    key = None
+    if isinstance(left, ast.Call) and isinstance(left.func, ast.Attribute) and left.func.attr == 'get' and left.args and norm_text(left.func.value) == f"{var}.attrs":
+        key = const_value(left.args[0], None)
+    elif isinstance(left, ast.Subscript) and norm_text(left.value) == f"{var}.attrs":
+        key = const_value(left.slice, None)
+    if not isinstance(key, str):
+        return None
+    if isinstance(e.ops[0], ast.Eq):
+        v = const_value(right, None)
+        return (key, frozenset({v})) if isinstance(v, str) else None
+    if isinstance(right, ast.Call) and dotted(right.func) in ('frozenset', 'set', 'tuple', 'list') and len(right.args) == 1 and not right.keywords:
+        right = right.args[0]
+    if isinstance(right, (ast.Set, ast.Tuple, ast.List)) and all(isinstance(const_value(x, None), str) for x in right.elts):
+        return (key, frozenset(const_value(x, None) for x in right.elts))
+    return None
+
+
 def _parses(text: str) -> bool:
     try:
         ast.parse(text, mode='eval')
